@@ -111,7 +111,7 @@ PROPS["C05"] = dict(units=c05_units, bounds_text="all valid date-times y in 1..9
 
 
 # ---------------- per-year machinery ----------------
-import re, os
+import re, os, json
 
 REPO = os.environ.get("VERIF_REPO", "/repo")
 
@@ -134,8 +134,32 @@ S_CORE = [1, 2, 8, 9, 15, 16, 18, 19, 23, 24, 236, 237, 239, 240, 241, 1574, 157
           1928, 1929, 1959, 1960, 1990, 2000, 2019, 2020, 2022, 2024, 2033, 2034, 3358, 9997, 9998]
 
 
+def structural_years(tier):
+    """years picked by the native feature scan of the CURRENT source (bin/symgo scan): for every structural feature
+    (solstice-day jiazi index at the anchor-choice boundary, solstice or Jie at 23h, Lichun before New Year in a jiazi
+    year, each leap-month number, dog-day geometry classes, 28-day months, ...) quick takes the year closest to 2000,
+    thorough every representative (first, last, three closest to 2000)"""
+    p = os.path.join(os.environ.get("VERIF_WORK", os.path.join(os.path.dirname(os.path.dirname(os.path.abspath(__file__))), ".work")), "scan.json")
+    try:
+        rows = json.load(open(p))
+    except Exception:
+        return []
+    ys = set()
+    for r in rows:
+        if r["feature"] == "panic":
+            continue
+        reps = r["years"]
+        if tier == "quick":
+            ys.add(min(reps, key=lambda y: abs(y - 2000)))
+        else:
+            ys.update(reps)
+    return sorted(ys)
+
+
 def year_set(tier, seed, budget_quick=None, thorough_n=None):
     ys = set(S_CORE)
+    if not budget_quick:
+        ys.update(structural_years(tier))
     tabs = leap_table_years()
     for t in tabs:
         inr = [y for y in t if 1 <= y <= 9997]
@@ -159,7 +183,7 @@ def year_set(tier, seed, budget_quick=None, thorough_n=None):
             for y in t:
                 if 1 <= y <= 9997:
                     ys.update([y, y + 1])
-        n = thorough_n or int(os.environ.get("VERIF_THOROUGH_YEARS", "1200"))
+        n = thorough_n or int(os.environ.get("VERIF_THOROUGH_YEARS", "400"))
         step = max(1, 9998 // n)
         off = rnd.randrange(step)
         ys.update(range(1 + off, 9999, step))
@@ -299,8 +323,7 @@ PROPS["C12"] = dict(units=c12_units, bounds_text="start offsets and direction: e
 def c16_units(tier, seed):
     ys = year_set(tier, seed)
     ys = [y for y in ys if y >= 2]
-    # structural years for the day star: summer-solstice day with jiazi index 29 / 30 (anchor choice), 23h solstices
-    us = per_year("calendar.VH_C16_Stars", "C16a", sorted(set(ys) | {1928, 1951, 2054, 1864, 2224}))
+    us = per_year("calendar.VH_C16_Stars", "C16a", ys)
     us.append(dict(id="C16b", harness="calendar.VH_C16_Names", params={}))
     return us
 
